@@ -413,6 +413,34 @@ theorem default_tables_complete :
     defaultFixed.map (·.1) = gasFixedFields ∧ defaultDep.map (·.1) = gasDepFields := by
   constructor <;> decide +kernel
 
+/-- the schedule entry an opcode is priced with: its own lower-case mnemonic, except these aliases
+(the storage opcodes charge `noop` and then storage micro-operations) -/
+def expectedField (mn : String) : String :=
+  if storageOps.contains mn then "noop" else
+  match mn with
+  | "MOD" => "mod_op" | "MOVE" => "move_op" | "JAL" => "jmp" | "CFS" => "cfsi"
+  | "LQW" => "lw" | "LHW" => "lw" | "SQW" => "sw" | "SHW" => "sw"
+  | _ => mn.toLower
+
+/-- operand (position in `unpack()`) that carries the unit count of the dependent-cost opcodes -/
+def expectedUnitArg : List (String × Nat) :=
+  [("RETD", 1), ("SMO", 2), ("ALOC", 0), ("CFEI", 0), ("CFE", 0), ("MCL", 1), ("MCLI", 1), ("MCP", 2), ("MCPI", 2),
+   ("MEQ", 3), ("LOGD", 3), ("ED19", 3), ("K256", 2), ("S256", 2), ("EPAR", 2)]
+
+/-- obligation on the generated charge sites (complete finite check): every opcode is priced with its own
+schedule entry (or the listed alias), dependent costs take their units from the expected operand, only ECAL
+is not charged by the VM, and the table covers exactly the opcodes of the instruction table. An opcode that
+starts charging another opcode's entry breaks this proof. -/
+theorem charge_sites_follow_mnemonics :
+    (opcodeCharge.all fun p =>
+      match p.2 with
+      | .none => p.1 == "ECAL"
+      | .fixed f | .fixedOpt f | .baseThenDep f | .baseThenDepOpt f => f == expectedField p.1
+      | .dep f i | .depOpt f i => f == expectedField p.1 && expectedUnitArg.lookup p.1 == some i) = true ∧
+    (opcodeCharge.all (fun p => instrTable.any (·.name == p.1)) && instrTable.all (fun r => opcodeCharge.any (·.1 == r.name))
+      && opcodeCharge.length == instrTable.length) = true := by
+  constructor <;> decide +kernel
+
 example : (chargeList defaultSchedule "CALL" [0, 0, 0, 1000] [4280, 1]).toOption = some ([144, 20, 40], true) := by decide +kernel
 example : (chargeList defaultSchedule "RETD" [0, 6200] []).toOption = some ([129], true) := by decide +kernel
 example : (chargeList defaultSchedule "ADD" [1, 2, 3] []).toOption = some ([1], true) := by decide +kernel
